@@ -3,6 +3,8 @@
 
 mod line_ending;
 pub use line_ending::GetLineEnding;
+#[cfg(feature = "verif")]
+pub use line_ending::verif_get_line_ending_from_buf;
 mod path;
 pub use path::*;
 
